@@ -371,7 +371,42 @@ def run(ctx):
         if exp != x:
             s4.disagree({"op": "~", "v": v}, x, exp)
     s4.sample({"pair": pairs[3], "and": ands[3]})
-    return [s1, s2, s3, s4]
+    # --------------------------------------------------------------- identifiers denote their symbol's value
+    import pipeline
+    from props.layout import raw
+    s5 = core.Stream("S3-names", "an identifier in an unsuffixed operand and in a data directive side by side, where the name is a loop variable / inner `=` symbol / macro parameter that shadows an outer constant of the same width class: both must show the value of the innermost definition (hand-derived expected bytes) and agree with the model; non-trivial = distinct (family, values)")
+    fam = []
+    for k in range(12 if tier == "quick" else 200):
+        n = rng.choice(["i", "x", "val", "w"])
+        wide = rng.random() < 0.4
+        lo_, hi_ = (0x100, 0xFFF0) if wide else (0, 0xF0)
+        a, b = rng.randrange(lo_, hi_), rng.randrange(lo_, hi_)
+        cnt = rng.randrange(1, 4)
+        d, op = (".dw", lambda v: bytes([0xA9, v & 0xFF, v >> 8, v & 0xFF, v >> 8])) if wide else (".db", lambda v: bytes([0xA9, v, v]))
+        tail = (lambda v: bytes([v & 0xFF, v >> 8])) if wide else (lambda v: bytes([v]))
+        fam.append((f"*=0x008000\n{n} := {a}\n.for {n} := {b}, {b + cnt} {{\nlda #{n}\n{d} {n}\n}}\n{d} {n}\n",
+                    b"".join(op(v) for v in range(b, b + cnt)) + tail(a), "loop-variable"))
+        fam.append((f"*=0x008000\n{n} := {a}\n{{\n{n} = {b}\nlda #{n}\n{d} {n}\n}}\n{d} {n}\n", op(b) + tail(a), "inner-symbol"))
+        fam.append((f"*=0x008000\n{n} := {a}\n.macro mm({n}) {{\nlda #{n}\n{d} {n}\n}}\nmm({b})\n{d} {n}\n", op(b) + tail(a), "macro-parameter"))
+        fam.append((f"*=0x008000\n{n} := {a}\n.scope q {{\n{n} = {b}\nlda #{n}\n}}\n{d} q.{n}\nlda #{n}\n", op(b)[:-len(tail(b))] + tail(b) + op(a)[:-len(tail(a))], "named-scope-symbol"))
+    run_ = pipeline.Runner(drv)
+    try:
+        progs = [raw("low_rom", src, meta=(exp, kind)) for src, exp, kind in fam]
+        for pr, r, m in run_.run(progs, trace=False):
+            exp, kind = pr["meta"]
+            s5.cases += 1
+            s5.nontrivial.add((kind, pr["src"]))
+            s5.count(kind)
+            run_.correspond(s5, pr, r, m)
+            data = b"".join(b for _, b in r["blocks"]) if r["status"] == "ok" else None
+            if data != exp:
+                s5.violate({"src": pr["src"]}, exp.hex(), data.hex() if data is not None else (r.get("exc"), r.get("error")),
+                           "an identifier does not denote the value of its innermost definition (" + kind + ")")
+        s5.sample({"src": fam[0][0], "expected": fam[0][1].hex()})
+        s6 = pipeline.wild_stream(run_, "C06", tier, seed)
+    finally:
+        run_.close()
+    return [s1, s2, s3, s4, s5, s6]
 
 
 def huge_shift(toks):
